@@ -20,10 +20,15 @@
 /* Units that decide only the "same pair" / "in mask" claims (P_PAIR) leave the index obligations and the sum
  * bookkeeping to their sibling unit (P_BOUNDS) over the same lifted text: both switches only REMOVE obligations /
  * knowledge, they never add an assumption. */
-#ifdef VX_NO_IDX_ASSERT
-#define VX_IDX_ASSERT(c, msg) ((void) 0)
+#if defined(VX_NO_IDX_ASSERT) || defined(VX_NO_LOCAL_IDX_ASSERT)
+#define VX_IDX_ASSERT(c, msg) ((void) 0)          /* indices of the function's local vectors */
 #else
 #define VX_IDX_ASSERT(c, msg) VX_ASSERT(c, msg)
+#endif
+#if defined(VX_NO_IDX_ASSERT) || defined(VX_NO_OUT_IDX_ASSERT)
+#define VX_OIDX_ASSERT(c, msg) ((void) 0)         /* indices of affinities / num_pus (the worker index) */
+#else
+#define VX_OIDX_ASSERT(c, msg) VX_ASSERT(c, msg)
 #endif
 #ifdef VX_NO_SUM
 #define VX_SUM_KNOWN_AT_MAKE(init) false
@@ -120,17 +125,17 @@ static struct mask vx_other_mask(void)
 }
 static struct mask vx_aff_get(struct maskvec *v, size_t i)
 {
-  VX_IDX_ASSERT(i < v->size, "affinities[i]: index within the vector");
+  VX_OIDX_ASSERT(i < v->size, "affinities[i]: index within the vector");
   return i == g_k ? g_k_mask : vx_other_mask();
 }
 static void vx_aff_set(struct maskvec *v, size_t i, struct mask m)
 {
-  VX_IDX_ASSERT(i < v->size, "affinities[i]: index within the vector");
+  VX_OIDX_ASSERT(i < v->size, "affinities[i]: index within the vector");
   if (i == g_k) { g_k_mask = m; g_k_cell = g_pi_last_victim; }
 }
 static void vx_npu_set(struct szvec *v, size_t i, size_t x)
 {
-  VX_IDX_ASSERT(i < v->size, "num_pus[i]: index within the vector");
+  VX_OIDX_ASSERT(i < v->size, "num_pus[i]: index within the vector");
   if (i == g_k) g_k_pun = x;
 }
 /* vector::resize(n): new elements are value-initialised */
@@ -167,7 +172,7 @@ struct vxvec {
 static size_t g_cv;              /* victim index of the local vectors (a core) */
 static size_t g_jv;              /* victim position inside pu_indexes[g_cv] */
 /* representation invariant carried by loop invariants */
-#define VV_WF(x) ((!(x).c_valid || ((x).c_idx < (x).size && ((x).c_idx != g_cv || (x).c_val == (x).v_val))) && \
+#define VV_WF(x) ((!(x).c_valid || (x).c_idx != g_cv || (x).c_val == (x).v_val) && \
                   (!((x).sum_known && (x).c_valid) || (x).c_val <= (x).total) && \
                   (!((x).sum_known && g_cv < (x).size) || (x).v_val <= (x).total) && \
                   (!((x).sum_known && (x).scan_valid) || ((x).c_valid && (x).c_idx == (x).scan_pos && (x).scan_prefix <= (x).total - (x).c_val)))
